@@ -1,0 +1,20 @@
+//go:build verif
+
+// Contracts for the HTTP backend's request URLs (C20), checked by /verif (govc). Comment-only file.
+// sprintfN(format, args...) is the uninterpreted result of fmt.Sprintf: the clauses pin the
+// format string, the order and the identity of the pieces.
+
+package httpproxy
+
+// storage mode "zstd": <base>/cas.v2/<hash> for CAS blobs, <base>/<kind>/<hash> otherwise
+//@ func New$1(hash string, kind cache.EntryKind) string
+//@   serves C20
+//@   requires proxy != nil
+//@   ensures[C20] cas: kind == 1 ==> result == sprintf2("%s/cas.v2/%s", boxstr(proxy.baseURL), boxstr(hash))
+//@   ensures[C20] other: kind != 1 ==> result == sprintf3("%s/%s/%s", boxstr(proxy.baseURL), kind, boxstr(hash))
+
+// storage mode "uncompressed": <base>/<kind>/<hash>
+//@ func New$2(hash string, kind cache.EntryKind) string
+//@   serves C20
+//@   requires proxy != nil
+//@   ensures[C20] form: result == sprintf3("%s/%s/%s", boxstr(proxy.baseURL), kind, boxstr(hash))
